@@ -146,3 +146,11 @@ def c19(F, R, tier):
 def c20(F, R, tier):
     import c20 as mod
     mod.check(F, R)
+
+
+@prop("C10",
+      technique="static: symbolic evaluation of the extracted rewrite functions (typed HIR) on an exhaustive family of small expression trees, compared under an independent semantics on an exact rational grid; syntactic hazard-preservation rule; must-precede data-flow rule for normalisation",
+      explanation="Decides, for every arithmetic tree of depth <= 2 over {x, y, 0, 1, 2, -1} with + - * / and unary minus (quick: one operand of the second level a leaf; thorough: full) and a family of ~1.5k logic/n-ary trees incl. non-0/1 truthy constants and division hazards: (REWRITE-SEM) simplify, flatten and flatten+simplify, evaluated from their HIR by the table interpreter, return a tree that is defined and equal to the input wherever the input is defined, on a 9-point-per-variable exact grid (enough to decide identity of the rational functions of these degrees); (REWRITE-HAZARD) a division by zero or by a non-constant never disappears; (IDEMPOTENT) simplify(simplify(e)) = simplify(e) on the family; (T-FOLD) num_truthy / logic_number tables; (NORMALISE-FIRST) every BoundsAnalyzer::analyze call receives constraints that went through flatten().simplify(). NOT decided: trees beyond the bound, Min/Max constant folding (outside the evaluated fragment), float rounding of folded constants, equality of compiled linear models under re-spelling beyond the normalisation-order clause.")
+def c10(F, R, tier):
+    import c10 as mod
+    mod.check(F, R, tier)
